@@ -259,7 +259,11 @@ var plans = map[string]*Plan{
 		},
 		Floor: map[string]int64{"rpc_calls": 10000, "codec_frames": 100, "failures_detected": 4, "e2e_operations": 1000},
 		Jobs: func(tier string) []Job {
-			return jobs("rpcsim", 16, tierN(tier, 8, 125), "tier="+tier, time.Duration(tierN(tier, 15, 120))*time.Minute)
+			js := jobs("rpcsim", 16, tierN(tier, 8, 125), "tier="+tier, time.Duration(tierN(tier, 15, 120))*time.Minute)
+			// "the failure is reported so that the replica is detached": the reporting path (rpc client -> close channel ->
+			// backend/remote's ping monitor -> controller) on the controller engine in net mode, incl. connections that
+			// fail while a ping is outstanding
+			return append(js, jobs("ctlsim", 3, tierN(tier, 8, 120), "net=1", time.Duration(tierN(tier, 15, 90))*time.Minute)...)
 		},
 		CrashSig: func(last, log string) (string, string) {
 			c := jivaCrash(log)
